@@ -149,3 +149,106 @@ func TestVerifEvictOverlap(t *testing.T) {
 	}
 	tr.comment(fmt.Sprintf("evictions that waited for a held shard lock: %d of %d trials", done, trials))
 }
+
+// C06 / C04 / C05: a SetWithTTL (or a Set without TTL) of key K inside the shard's critical section while the expiry of
+// K's OLD value has already been decided by the maintenance side and is waiting for that shard lock.  The Set returned
+// true: its value must stay readable, it must not be reported EXPIRED long before its own deadline (defect F18).
+// Control trials without the Set: the old value is reclaimed and reported EXPIRED exactly once.
+func TestVerifExpireOverlap(t *testing.T) {
+	tr := vopen(t, "expireoverlap")
+	defer tr.close()
+	tr.init(0)
+	r := &vrng{s: vseed()*32452843 + 9}
+	trials := vscale(60, 1500)
+	for c := 0; c < trials; c++ {
+		t0 := int64(1_000_000_000) + int64(r.next()%(1<<36))
+		vsetNow(t0)
+		type note struct {
+			k, v   int
+			reason RemoveReason
+		}
+		var notes []note
+		s := vnewStore(&StoreOptions[int, int]{MaxSize: int64(4 + r.intn(20)), Listener: func(k, v int, reason RemoveReason) {
+			notes = append(notes, note{k, v, reason})
+		}})
+		s.timerwheel.nanos = t0
+		s.timerwheel.clock.SetNowCache(t0)
+		key := r.intn(100)
+		ttl := time.Duration(1 + r.next()%(1<<uint(20+r.intn(20))))
+		s.Set(key, 100, 1, ttl)
+		vdrainWrites(s)
+		vsetNow(t0 + int64(ttl) + int64(1<<30) + int64(r.intn(1<<30))) // the deadline has passed, a tick is due
+		h, idx := s.index(key)
+		sh := s.shards[idx]
+		sh.mu.Lock()
+		fin := make(chan struct{})
+		go func() { vtick(s); close(fin) }()
+		parked := false
+		for i := 0; i < 200000; i++ {
+			select {
+			case <-fin:
+				i = 1 << 30
+			default:
+			}
+			if _, p := vremoverParked(); p {
+				parked = true
+				break
+			}
+			if i < 100 {
+				runtime.Gosched()
+			} else {
+				time.Sleep(20 * time.Microsecond)
+			}
+		}
+		kind := c % 3 // 0: SetWithTTL, 1: Set without TTL, 2: control
+		var res setShardResult[int, int]
+		var expire int64
+		if parked && kind != 2 {
+			if kind == 0 {
+				expire = s.timerwheel.clock.ExpireNano(time.Hour)
+			}
+			res = s.setShardWithoutLock(sh, h, key, 200, 1, expire, false)
+		}
+		sh.mu.Unlock()
+		if parked && kind != 2 {
+			s.toPolicy(res, sh, h, 1, expire, false)
+		}
+		select {
+		case <-fin:
+		case <-time.After(20 * time.Second):
+			tr.viol("C10: a maintenance tick did not finish within 20 s after the shard lock was released")
+		}
+		vdrainWrites(s)
+		if !parked {
+			tr.op("trial", ss("87", "0", i64(int64(kind))), ss("0"))
+			s.Close()
+			continue
+		}
+		v, ok := s.Get(key)
+		if kind != 2 {
+			what := map[int]string{0: "SetWithTTL(k, 200, 1h)", 1: "Set(k, 200) without TTL"}[kind]
+			if !ok || v != 200 {
+				msg := fmt.Sprintf("%s returned while the expiry of the previous value of key %d was waiting for the shard lock; afterwards Get answers (%d,%v): the stored value was removed by the previous value's deadline; notifications %v", what, key, v, ok, notes)
+				tr.viol("C06: " + msg)
+			}
+			for _, n := range notes {
+				if n.k == key && n.v == 200 && n.reason == EXPIRED {
+					tr.viol(fmt.Sprintf("C04: key %d value 200 was reported EXPIRED although its deadline is %s away (%s overlapped the expiry of the previous value)", key, map[int]string{0: "an hour", 1: "never (no TTL)"}[kind], what))
+					tr.viol(fmt.Sprintf("C05: key %d value 200 was reported with reason EXPIRED although it had not expired", key))
+				}
+			}
+		} else {
+			cnt := 0
+			for _, n := range notes {
+				if n.k == key && n.v == 100 && n.reason == EXPIRED {
+					cnt++
+				}
+			}
+			if ok || cnt != 1 {
+				tr.viol(fmt.Sprintf("C04: key %d expired and a tick ran: Get answers (%d,%v), EXPIRED notifications %d (want a miss and exactly one)", key, v, ok, cnt))
+			}
+		}
+		tr.op("trial", ss("87", "1", i64(int64(kind))), ss(i64(int64(len(notes)))))
+		s.Close()
+	}
+}
